@@ -84,6 +84,9 @@ func genRestr(r *rand.Rand, m *Model, t, rel string, conds []string) []Restr {
 	if chance(r, 0.1) {
 		add(Restr{T: "group", Rel: "admin"})
 	}
+	if chance(r, 0.12) { // a group as a plain object subject, next to (or instead of) its usersets
+		add(Restr{T: "group", Cond: withCond()})
+	}
 	if chance(r, 0.25) { // self recursion through a userset of the same relation
 		add(Restr{T: t, Rel: rel, Cond: withCond()})
 	}
